@@ -229,7 +229,19 @@ void rq_gen_geometry (vf_rng *r, rq_request *q, unsigned profile)
     if (q->src.kind == RQ_BITS && (q->src.tr_class == TR_SCALE_POS || q->src.tr_class == TR_SCALE_ANY || q->src.tr_class == TR_NONE) && q->src.alpha_map == 0 && vf_chance (r, 1, 25)) {
         rq_image *s = &q->src;
         s->w = (int)vf_range (r, 12000, 32767); s->h = (int)vf_range (r, 1, 2);
+        /* ... and sources on either side of the largest size the library accepts (0x7ffe): above it the request has to be dropped, whatever the repeat mode */
+        if (vf_chance (r, 1, 3)) s->w = vf_chance (r, 1, 2) ? (int)vf_range (r, 32760, 32775) : (int)vf_range (r, 32768, 70000);
         if (PIXMAN_FORMAT_BPP (s->fmt) > 32) s->fmt = PIXMAN_a8r8g8b8;
+        if (s->tr_class != TR_NONE && vf_chance (r, 1, 5)) {
+            /* the same, vertically: a very tall source walked by a y scale */
+            int t = s->w; s->w = s->h; s->h = t;
+            double sc = (double)s->h / (q->h > 0 ? q->h : 1) * (0.3 + vf_unit (r));
+            s->tr.matrix[1][1] = (pixman_fixed_t)(sc * 65536) * (s->tr.matrix[1][1] < 0 ? -1 : 1);
+            s->tr.matrix[1][2] = s->tr.matrix[1][1] < 0 ? pixman_int_to_fixed (s->h - (int)vf_range (r, 0, 3000)) : -(pixman_fixed_t)(vf_range (r, 0, 3000) * 65536);
+            s->tr.matrix[0][0] = 65536; s->tr.matrix[0][2] = 0;
+            q->sx = 0; q->sy = (int)vf_range (r, 0, 3);
+            return;
+        }
         if (s->tr_class != TR_NONE) {
             double sc = (double)s->w / (q->w > 0 ? q->w : 1) * (0.3 + vf_unit (r));
             s->tr.matrix[0][0] = (pixman_fixed_t)(sc * 65536) * (s->tr.matrix[0][0] < 0 ? -1 : 1);
